@@ -103,6 +103,10 @@ def run(ctx):
             known += [(cid, sched, k) for k in kn]
             for f in fs:
                 if f["kind"] == "harness":
+                    # no output for this case: either the shard died on an EARLIER case (reported
+                    # there as a crash finding) and this one was never run, or the harness is broken
+                    if any(ff.get("kind") == "crash" for o2 in out.values() for ff in o2.get("fails", [])):
+                        continue
                     raise common.CheckError(f"cyc_par produced no usable output for {cid}: {f}")
                 if f["kind"] == "unwound":
                     d = unwound.setdefault(cid, {})
